@@ -406,6 +406,8 @@ static void gb_add(const char *fmt, ...)
     if (n > 0 && gbuf_len + (size_t)n < sizeof(gbuf)) gbuf_len += (size_t)n;
 }
 static int gen_expansions, gen_longlines;
+/* more white space than the one blank between a keyword and its argument: the argument is still the second word */
+static const char *gen_gap(rng_t *r) { static const char *g[] = { " ", "  ", "\t", " \t ", "     " }; return rng_chance(r, 1, 6) ? g[rng_below(r, 5)] : ""; }
 static void gen_text_line(rng_t *r)
 {
     static const char al[] = "abcdefgxyzEB0123 _=.,:/-";
@@ -455,7 +457,7 @@ static void gen_c09(plan_t *p, rng_t *r)
         gb_reset();
         gb_add("<simrun-1.0>\n");
         if (rng_chance(r, 1, 3)) gen_text_line(r);
-        if (k < include_chain) gb_add("%%include inc%d.cfg\n", k + 1);
+        if (k < include_chain) gb_add("%%include %sinc%d.cfg\n", gen_gap(r), k + 1);
         if (rng_chance(r, 1, 3)) gen_text_line(r);
         snprintf(nm, sizeof(nm), "inc%d.cfg", k);
         o = plan_op(p, 0, "file", 0); op_str(o, nm, strlen(nm)); op_str2(o, gbuf, gbuf_len);
@@ -469,7 +471,7 @@ static void gen_c09(plan_t *p, rng_t *r)
         gb_add(rng_chance(r, 1, 10) ? "no magic here\n" : "<simrun-1.0>\n");
         for (int q = 0; q < nl; q++) {
             int c = (int)rng_below(r, 10);
-            if (c < 6 || target_depth > 200) gen_text_line(r); else if (c < 8) gb_add("begin c%d\n", rng_range(r, 1, nreg > 0 ? nreg : 1)); else gb_add("end\n");
+            if (c < 6 || target_depth > 200) gen_text_line(r); else if (c < 8) gb_add("begin %sc%d\n", gen_gap(r), rng_range(r, 1, nreg > 0 ? nreg : 1)); else gb_add("end\n");
         }
         if (rng_chance(r, 1, 6)) { gbuf_len--; }              /* last line without newline */
         snprintf(nm, sizeof(nm), k == 2 ? "sub/s%d.cfg" : "f%d.cfg", k);
@@ -480,16 +482,16 @@ static void gen_c09(plan_t *p, rng_t *r)
     gb_reset();
     gb_add("<simrun-1.0>\n");
     nest_chunk = target_depth;
-    for (int q = 0; q < nest_chunk; q++) { gb_add("begin %s%d\n", rng_chance(r, 1, 20) ? "zz" : "c", rng_range(r, 1, nreg > 0 ? nreg : 1)); open_depth++; if (rng_chance(r, 1, 6)) gen_text_line(r); }
+    for (int q = 0; q < nest_chunk; q++) { gb_add("begin %s%s%d\n", gen_gap(r), rng_chance(r, 1, 20) ? "zz" : "c", rng_range(r, 1, nreg > 0 ? nreg : 1)); open_depth++; if (rng_chance(r, 1, 6)) gen_text_line(r); }
     if (include_chain) gb_add("%%include inc1.cfg\n");
     for (int q = 0; q < nlines; q++) {
         int c = (int)rng_below(r, 100);
         if (c < 40) gen_text_line(r);
-        else if (c < 58 && open_depth < 250) { gb_add("%sbegin %s%d%s\n", rng_chance(r, 1, 5) ? "  " : "", rng_chance(r, 1, 10) ? "nosuch" : rng_chance(r, 1, 15) ? "null" : "c", rng_range(r, 1, nreg > 0 ? nreg : 1), rng_chance(r, 1, 6) ? " extra words" : ""); open_depth++; }
+        else if (c < 58 && open_depth < 250) { gb_add("%sbegin %s%s%d%s\n", rng_chance(r, 1, 5) ? "  " : "", gen_gap(r), rng_chance(r, 1, 10) ? "nosuch" : rng_chance(r, 1, 15) ? "null" : "c", rng_range(r, 1, nreg > 0 ? nreg : 1), rng_chance(r, 1, 6) ? " extra words" : ""); open_depth++; }
         else if (c < 76) { gb_add(rng_chance(r, 1, 4) ? "end junk here\n" : rng_chance(r, 1, 5) ? "  END\n" : "end\n"); if (open_depth) open_depth--; }
         else if (c < 82) gb_add("%s# a comment %d\n", rng_chance(r, 1, 3) ? (rng_chance(r, 1, 2) ? "  " : "\t") : "", q);
         else if (c < 86) gb_add(rng_chance(r, 1, 2) ? "\n" : "   \n");
-        else if (c < 94) gb_add("%%include %s\n", rng_chance(r, 1, 8) ? "missing.cfg" : rng_chance(r, 1, 10) ? "empty.cfg" : rng_chance(r, 1, 12) ? "sub" : rng_chance(r, 1, 3) ? "sub/s2.cfg" : rng_chance(r, 1, 2) ? "f0.cfg" : "f1.cfg");
+        else if (c < 94) gb_add("%%include %s%s\n", gen_gap(r), rng_chance(r, 1, 8) ? "missing.cfg" : rng_chance(r, 1, 10) ? "empty.cfg" : rng_chance(r, 1, 12) ? "sub" : rng_chance(r, 1, 3) ? "sub/s2.cfg" : rng_chance(r, 1, 2) ? "f0.cfg" : "f1.cfg");
         else gb_add("<ignored line\n");
     }
     if (rng_chance(r, 2, 3)) while (open_depth-- > 0) gb_add("end\n");
